@@ -72,12 +72,13 @@ def _argv(argv, fn):
 
 def t_colander_api(P, P2, out, opt):
     from amr_kitchen.colander import Colander
-    Colander(plotfile=P, limit_level=None, output=out, variables=opt.get("vars", ["density", "temp"])).strain()
+    Colander(plotfile=P, limit_level=opt.get("limit"), output=out, variables=opt.get("vars", ["density", "temp"])).strain()
 
 
 def t_colander_cli(P, P2, out, opt):
     import amr_kitchen.colander.cli as m
-    _argv(["colander", P, "-v"] + opt.get("vars", ["density", "temp"]) + ["-o", out], m.main)
+    _argv(["colander", P, "-v"] + opt.get("vars", ["density", "temp"]) + ["-o", out]
+          + (["-l", str(opt["limit"])] if opt.get("limit") is not None else []), m.main)
 
 
 def t_combine_api(P, P2, out, opt):
@@ -174,8 +175,9 @@ def t_chk2plt_cli(P, P2, out, opt):
 
 # name -> (driver, input kind, needs second input, output modes, option variants, broken-input kinds that MUST fail)
 TOOLS = {
-    "colander_api": (t_colander_api, "plt3", False, ["explicit"], [{}], ["missing_binary", "missing_level_header"]),
-    "colander_cli": (t_colander_cli, "plt2", False, ["explicit"], [{}], ["missing_binary", "missing_level_header"]),
+    "colander_api": (t_colander_api, "plt3", False, ["explicit"], [{}, {"vars": ["all"], "limit": 0}, {"vars": ["temp", "density", "Z"]}],
+                     ["missing_binary", "missing_level_header"]),
+    "colander_cli": (t_colander_cli, "plt2", False, ["explicit"], [{}, {"vars": ["all"], "limit": 0}], ["missing_binary", "missing_level_header"]),
     "combine_api": (t_combine_api, "plt3", True, ["explicit", "default"], [{}, {"vars1": "temp"}],
                     ["missing_binary", "missing_level_header", "unknown_field"]),
     "combine_cli": (t_combine_cli, "plt3", True, ["explicit", "default"], [{}], ["missing_binary", "missing_level_header"]),
@@ -233,6 +235,23 @@ def cases(tier, seed):
             for pf in (("parent", "rel"), ("parent", "slash"), ("else", "rel"), ("else", "abs")):
                 out.append({"tool": name, "outmode": "parent", "opt": oi, "pathform": list(pf), "faults": False, "broken": False,
                             "seed": seed, "w": 1})
+    # default outputs for directory names with dots (a common stem before the dot, a dotted copy)
+    for name, (fn, kind, two, outmodes, opts, broken) in sorted(TOOLS.items()):
+        if "default" not in outmodes or name == "chef_builtin":
+            continue
+        for pf in (("parent", "rel"), ("else", "abs")):
+            out.append({"tool": name, "outmode": "default", "opt": 0, "pathform": list(pf), "faults": False, "broken": False,
+                        "seed": seed, "names": 1, "w": 1})
+    # histories: the same tool twice into the SAME output path with different options (an output that already exists,
+    # written by an earlier run): every ordered pair of option variants
+    for name, (fn, kind, two, outmodes, opts, broken) in sorted(TOOLS.items()):
+        if "explicit" not in outmodes or name == "chef_builtin" or len(opts) < 2:
+            continue
+        for o1 in range(len(opts)):
+            for o2 in range(len(opts)):
+                if o1 != o2:
+                    out.append({"tool": name, "outmode": "twice", "opt": o2, "first_opt": o1, "pathform": ["parent", "rel"], "faults": False,
+                                "broken": False, "seed": seed, "w": 2})
     return out
 
 
@@ -245,7 +264,10 @@ def path_form(abs_path, cwd, form):
 class Env(object):
     """fresh input trees for one execution"""
 
-    def __init__(self, workdir, kind, seed, tag):
+    NAMES = [("plt00010", "plt00020", "chk00005"), ("plt_t0.25", "plt_t0.50", "chk00005.old")]
+
+    def __init__(self, workdir, kind, seed, tag, names=0):
+        n1, n2, nchk = self.NAMES[names]
         self.root = os.path.join(workdir, "e_" + tag)
         os.makedirs(self.root)
         self.indir = os.path.join(self.root, "in")
@@ -254,7 +276,7 @@ class Env(object):
         os.makedirs(os.path.join(self.root, "recipes"))
         self.inputs = []
         if kind == "chk":
-            self.p1 = os.path.join(self.indir, "chk00005")
+            self.p1 = os.path.join(self.indir, nchk)
             chkmodel.write_checkpoint(dict(chkdesc(), seed=seed), self.p1)
             self.inputs = [self.p1]
             self.p2 = None
@@ -262,18 +284,18 @@ class Env(object):
             from . import c11
             from ..refmodel import write_plotfile
             d = c11.thermo_desc(seed, 1)
-            self.p1 = os.path.join(self.indir, "plt00010")
+            self.p1 = os.path.join(self.indir, n1)
             write_plotfile(d, self.p1, ref=c11.thermo_ref(d))
             self.p2 = None
             self.inputs = [self.p1]
         else:
             d = mesh3() if kind == "plt3" else mesh2()
             d["seed"] = seed
-            self.p1, _ = build(d, self.indir, "plt00010")
+            self.p1, _ = build(d, self.indir, n1)
             d2 = dict(d)
             d2["fields"] = ["Zvar", "density", "Y(H2)"]
             d2["seed"] = seed + 1
-            self.p2, _ = build(d2, self.indir, "plt00020")
+            self.p2, _ = build(d2, self.indir, n2)
             self.inputs = [self.p1, self.p2]
         for nm, txt in (("r.py", RECIPE), ("rbad.py", RECIPE_BAD)):
             with open(os.path.join(self.root, "recipes", nm), "w") as f:
@@ -283,11 +305,11 @@ class Env(object):
         shutil.rmtree(self.root, ignore_errors=True)
 
 
-def execute(case, env, fail_at=None, breakage=None):
+def execute(case, env, fail_at=None, breakage=None, opt_index=None):
     """one execution of the tool; returns dict(outcome, events, points, snapshot_ok, fired)"""
     name = case["tool"]
     fn, kind, two, outmodes, opts, broken = TOOLS[name]
-    opt = dict(opts[case["opt"]])
+    opt = dict(opts[case["opt"] if opt_index is None else opt_index])
     cwd_kind, form = case["pathform"]
     cwd = env.indir if cwd_kind == "parent" else os.path.join(env.root, "elsewhere")
     if opt.get("recipe") == "@RECIPE":
@@ -311,7 +333,7 @@ def execute(case, env, fail_at=None, breakage=None):
         os.remove(os.path.join(env.p1, "Level_0", "state_H" if kind == "chk" else "Cell_H"))
     P = path_form(env.p1, cwd, form)
     P2 = path_form(env.p2, cwd, form) if two else None
-    if case["outmode"] == "explicit":
+    if case["outmode"] in ("explicit", "twice"):
         out = "out_x" if form in ("rel", "dot", "slash", "rel_slash") else os.path.join(env.root, "outabs", "out_x")
         if os.path.isabs(out):
             os.makedirs(os.path.dirname(out), exist_ok=True)
@@ -453,11 +475,19 @@ def run_case(case, workdir):
     name = case["tool"]
     fn, kind, two, outmodes, opts, broken = TOOLS[name]
     seed = case["seed"]
-    key = [name, case["outmode"], case["opt"], case["pathform"]]
-    env = Env(workdir, kind, seed, "plain")
+    key = [name, case["outmode"], case["opt"], case["pathform"], case.get("names", 0)]
+    env = Env(workdir, kind, seed, "plain", case.get("names", 0))
+    if case["outmode"] == "twice":
+        r1 = execute(case, env, opt_index=case["first_opt"])
+        rec.exe(key + ["first", case["first_opt"]], nontrivial=False, trans=1 + r1["points"])
+        judge(rec, case, {"tool": name, "outmode": "twice", "opt": opts[case["first_opt"]], "pathform": case["pathform"], "run": "first of two"},
+              env, r1, must_fail=False)
     r0 = execute(case, env)
     sub = {"tool": name, "outmode": case["outmode"], "opt": opts[case["opt"]], "pathform": case["pathform"], "run": "plain"}
-    rec.exe(key + ["plain"], nontrivial=False, trans=1 + r0["points"])
+    if case["outmode"] == "twice":
+        sub["history"] = "same output path written before with options %r" % (opts[case["first_opt"]],)
+        key = key + [case["first_opt"]]
+    rec.exe(key + ["plain"], nontrivial=case["outmode"] == "twice", trans=1 + r0["points"])
     rec.count("plain_ok" if r0["outcome"][0] == "ok" else "plain_failed")
     rec.outcome("%s:%s" % (name, r0["outcome"][0]))
     judge(rec, case, sub, env, r0, must_fail=False)
@@ -466,7 +496,7 @@ def run_case(case, workdir):
         for bk in ("missing_binary", "missing_level_header", "unknown_field"):
             if bk == "unknown_field" and bk not in broken:
                 continue
-            env = Env(workdir, kind, seed, bk)
+            env = Env(workdir, kind, seed, bk, case.get("names", 0))
             r = execute(case, env, breakage=bk)
             sub2 = dict(sub, run=bk)
             rec.exe(key + [bk], nontrivial=True)
@@ -474,7 +504,7 @@ def run_case(case, workdir):
             env.remove()
     if case["faults"] and r0["outcome"][0] == "ok" and r0["points"] > 0:
         for k in range(1, r0["points"] + 1):
-            env = Env(workdir, kind, seed, "f%d" % k)
+            env = Env(workdir, kind, seed, "f%d" % k, case.get("names", 0))
             r = execute(case, env, fail_at=k)
             sub2 = dict(sub, run="fault", fail_at=k, point=r["fired"])
             rec.exe(key + ["fault", k], nontrivial=True)
